@@ -57,7 +57,9 @@ PAIR_NAMES = [('uuid', 'uuid2'), ('uuid', 'uuid_in_list'), ('uuid_in_dict', 'mpr
               ('fits_exactly', 'tiny3'), ('reentrant', 'reentrant'), ('oldstyle', 'uuid'), ('h_re_sub', 'h_re'),
               ('comment_wrapping', 'commented'), ('commented', 'many_comments'), ('comment_wrapping', 'many_comments'),
               ('uuid', 'h_pred_lazy'), ('h_pred_lazy', 'h_sub_b'), ('h_pred_lazy', 'h_pred_lazy'),
-              ('many_floats', 'containers'), ('ast', 'ast'), ('h_pred', 'h_unreg')]
+              ('many_floats', 'containers'), ('h_pred_c', 'h_pred_b'), ('h_pred_b', 'h_pred_c'), ('h_pred_c', 'h_pred'),
+              ('h_pred_mixed', 'h_pred_c'), ('h_pred_c', 'h_pred_c'), ('h_memo', 'h_memo'), ('uuid', 'enum'),
+              ('enum', 'uuid'), ('h_sub_a', 'enum'), ('partial', 'ppath'), ('ast', 'ast'), ('h_pred', 'h_unreg')]
 PROBE_RANGES = {}   # probe -> (funcname, lo, hi)
 
 
@@ -102,6 +104,19 @@ class HPred(HPlain):
 
 class HUnreg(HPlain):
     pass
+
+
+class HPredB(HPlain):
+    pass
+
+
+class HPredC(HPlain):
+    pass
+
+
+class HMemo:
+    def __repr__(self):
+        return 'HMemo!'
 
 
 class HBad(HPlain):
@@ -204,6 +219,24 @@ def setup():
             return 'Reentrant<%s>' % P.pformat(v.inner, width=200).replace('\n', ' ')
         return contextual(evaluator)
 
+    @register_pretty(predicate=lambda v: isinstance(v, HPredB))
+    def p_pred_b(v, ctx):
+        return pretty_call(ctx, type(v), *v.a, pred='b')
+
+    @register_pretty(predicate=lambda v: isinstance(v, HPredC))
+    def p_pred_c(v, ctx):
+        return pretty_call(ctx, type(v), *v.a, pred='c')
+
+    from prettyprinter.doc import always_break, concat as _concat, nest as _nest, HARDLINE as _HARDLINE
+    memo = {}
+
+    @register_pretty(HMemo)
+    def p_memo(v, ctx):
+        if 'doc' not in memo:
+            memo['doc'] = always_break(_concat([
+                'HMemo(', _nest(4, _concat([_HARDLINE, 'a=1,', _HARDLINE, 'b=2'])), _HARDLINE, ')']))
+        return memo['doc']
+
     @register_pretty(HBad)
     def p_bad(v, ctx):
         raise ValueError('harness printer failure')
@@ -261,6 +294,10 @@ def setup():
     add(('many_floats', 'layout', [i / 7 for i in range(150)], {'width': 60}))
     add(('h_pred', 'plain', HPred('p'), {}))
     add(('h_unreg', 'plain', [HUnreg(), 1], {}))
+    add(('h_pred_b', 'plain', HPredB(1), {}))
+    add(('h_pred_c', 'plain', [HPredC(2), HPredC()], {}))
+    add(('h_pred_mixed', 'plain', [HPredC(), HPredB(), HPred('x')], {}))
+    add(('h_memo', 'layout', [HMemo(), {'m': HMemo()}], {'width': 30}))
     add(('h_bad', 'plain', [1, HBad(), 2], {}))
     # -- struct sequences (class-keyed field-name cache)
     add(('struct_time', 'cache', time.strptime('2000', '%Y'), {'width': 40}))
@@ -442,8 +479,9 @@ def generate(rng, idx, tier):
             # site-stratified: park thread A at the occ-th time it reaches one shared-state source line
             site = SWEEP[a][r2 % len(SWEEP[a])]
             est = SERIAL_STEPS[a] + SERIAL_STEPS[b]
-            return dict(threads=[[a], [b]],
-                        sched=dict(seed=rng.randrange(1 << 30), opcode=False, max_steps=est * 60 + 20000,
+            follow = r2 % 3 != 0     # two of three sweep runs: follow-up calls after the parked one
+            return dict(threads=[[a, b], [b, a]] if follow else [[a], [b]],
+                        sched=dict(seed=rng.randrange(1 << 30), opcode=False, max_steps=est * 120 + 20000,
                                    est_steps=est, policy='strat', strat_tid=0, strat_k=0,
                                    strat_site=list(site), sweep=True))
         # alternate between yield points under a package lock and the lock-free ones; stride through
